@@ -114,16 +114,17 @@ fn withtext_family(out: &mut Out, ctx: &Ctx) {
         1 => l(vec![a(2), h(x), l(vec![a(0), a(0)]), l(vec![a(1), a(0)])]),
         2 => l(vec![a(2), h(x), l(vec![a(0), a(0)]), l(vec![a(0), a(2)])]),
         3 => l(vec![a(2), h(x), l(vec![a(1), a(-2)]), l(vec![a(1), a(0)])]),
-        _ => l(vec![a(2), h(x), l(vec![a(0), a(1)]), l(vec![a(1), a(0)])]),
+        4 => l(vec![a(2), h(x), l(vec![a(0), a(1)]), l(vec![a(1), a(0)])]),
+        _ => l(vec![a(2), h(x), l(vec![a(0), a(0)]), l(vec![a(1), a(-1)])]),
     };
-    for styles in 0..125i64 {
+    for styles in 0..216i64 {
         for kind in 1..=3i64 {
             for order in 0..2 {
                 let mut ops = vec![l(vec![a(0), a(0), a(8)])];
                 for i in 0..3 {
                     ops.push(l(vec![a(3), a(-1), text(2 * i, 2 * i + 2), l(vec![])]));
                 }
-                let mut m: Vec<Sx> = (0..3).map(|i| member(i, (styles / 5i64.pow(i as u32)) % 5)).collect();
+                let mut m: Vec<Sx> = (0..3).map(|i| member(i, (styles / 6i64.pow(i as u32)) % 6)).collect();
                 if order == 1 {
                     m.reverse();
                 }
@@ -202,5 +203,5 @@ pub fn generate(out: &mut Out, tier: &str, seed: u64) {
     }
 }
 
-pub const RULE: &str = "a deterministic family of 750 histories with a complex selector over three annotations on adjacent text, every member without offset / covering the whole target in three alignments / covering a part (the internal RangedAnnotationSelector with and without text triggers, extends, just misses; every complex kind, two orders; then an annotation on it and removals); for every complex target after every operation the stored subselector vector and its expansion, compared with the model's own compression and expansion; a deterministic family of 162 histories in which the text-selection handles of two resources line up with the internal range compression of complex selectors (every complex kind, three member orders, then removal of both resources); seeded random histories of 1..14 (every 4th: 1..40) operations over <=6 resources of 0..8 codepoints, <=4 datasets, all nine selector kinds (text, annotation with and without relative offset, resource, dataset, key, data, Multi/Composite/Directional with 1..4 members incl. consecutive ranges that trigger and just miss range compression), references by id and by handle, shrink_to_fit calls in a third of the histories, data with and without ids, the same data twice, duplicate ids, one in 12 references invalid, removals of annotations/data (strict and not)/keys/resources/datasets (two thirds of the histories); after EVERY operation the outcome and, for every annotation, resource (with every known text selection), dataset (with every key and data item) slot, all reverse lookups through the public API, plus id resolution of 10 tokens per kind. One evaluation = one item record or operation outcome; non-trivial = history with a successful annotate/removal; distinct = distinct histories.";
+pub const RULE: &str = "a deterministic family of 1296 histories with a complex selector over three annotations on adjacent text, every member without offset / covering the whole target in three alignments / covering a part at either end (the internal RangedAnnotationSelector with and without text triggers, extends, just misses; every complex kind, two orders; then an annotation on it and removals); for every complex target after every operation the stored subselector vector and its expansion, compared with the model's own compression and expansion; a deterministic family of 162 histories in which the text-selection handles of two resources line up with the internal range compression of complex selectors (every complex kind, three member orders, then removal of both resources); seeded random histories of 1..14 (every 4th: 1..40) operations over <=6 resources of 0..8 codepoints, <=4 datasets, all nine selector kinds (text, annotation with and without relative offset, resource, dataset, key, data, Multi/Composite/Directional with 1..4 members incl. consecutive ranges that trigger and just miss range compression), references by id and by handle, shrink_to_fit calls in a third of the histories, data with and without ids, the same data twice, duplicate ids, one in 12 references invalid, removals of annotations/data (strict and not)/keys/resources/datasets (two thirds of the histories); after EVERY operation the outcome and, for every annotation, resource (with every known text selection), dataset (with every key and data item) slot, all reverse lookups through the public API, plus id resolution of 10 tokens per kind. One evaluation = one item record or operation outcome; non-trivial = history with a successful annotate/removal; distinct = distinct histories.";
 pub const EXHAUSTIVE: bool = false;
